@@ -105,6 +105,9 @@ def check_window(agg, h, kind, nkeys, form, keys, vals, menu_name):
 def run_unit(unit):
     if unit[0] == "hist":
         return c12.run_hist(unit)
+    if unit[0] == "gextra":
+        from mc import groupextra
+        return groupextra.run_extra_unit(unit, METHOD)
     kind, nkeys, n, first, level = unit
     agg = Agg()
     h = hashlib.sha256()
@@ -132,6 +135,7 @@ def check(ctx):
     units += [("hist", "str", f, METHOD, 2, "recycle") for f in (("name", "column") if ctx.thorough else ("name",))]
     if not ctx.thorough:
         units += [("hist", "str", "name", METHOD, 3, "fresh", p) for p in ("cell", "view", "replace", "cell2", "view2")]
+    units += [("gextra", f) for f in ("grid", "floats")]
     agg = hashseeds.run(ctx, "props.c13", units)
     agg.notes["bound"] = "rows<=4 (1 key) / <=3 (2 keys) quick; <=5 / <=4 / <=2 (3 keys) thorough"
     agg.notes["exhaustive"] = True
@@ -145,6 +149,10 @@ def coverage_goals(ctx, agg):
 def replay(rec):
     case = rec.get("case") or {}
     agg = Agg()
+    if case.get("family") in ("grid of composite keys", "float accumulation"):
+        from mc import groupextra
+        fam = "grid" if case["family"].startswith("grid") else "floats"
+        return set(groupextra.run_extra_unit(("gextra", fam), METHOD).viol)
     if "hist" in case:
         col, idx, new, path = case["hist"]
         c12.hist_one(agg, case["kind"], case["form"], case["method"], [tuple(k) for k in case["keys"]], case["values"], col, idx, new, path)
